@@ -175,7 +175,7 @@ class LatexFormatter(BaseFormatter):
     ) -> str:
         with override_locale(mspec, babel_kwds.get("locale", None)) as format_number:
             if isinstance(magnitude, ndarray):
-                mstr = ndarray_to_latex(magnitude, mspec)
+                mstr = ndarray_to_latex(magnitude, format_number)
             else:
                 mstr = format_number(magnitude)
 
@@ -306,7 +306,7 @@ class SIunitxFormatter(BaseFormatter):
     ) -> str:
         with override_locale(mspec, babel_kwds.get("locale", None)) as format_number:
             if isinstance(magnitude, ndarray):
-                mstr = ndarray_to_latex(magnitude, mspec)
+                mstr = ndarray_to_latex(magnitude, format_number)
             else:
                 mstr = format_number(magnitude)
 
